@@ -270,6 +270,12 @@ def query_forms():
           ("mitl||", "Pr ( ( X {p} ) || ( {q} ) )"), ("mitl-nested", "Pr ( ( ( X {p} ) U [ 0 , 3 ] ( <> [ 1 , 2 ] {q} ) ) )"),
           ("mitl-mixed", "Pr ( ( ( X {p} ) || ( {q} ) ) && ( ( {q} R [ 0 , 1 ] {p} ) ) )"), ("mitl-atom", "Pr {p}"),
           ("control-buchi", "control: A[] ( {p} and A<> {q} )")]
+    # comparisons of two probabilities whose sides are bounded in different ways (time, steps, clocks)
+    kinds = [("time", "<=10"), ("steps", "#<=5"), ("clock-x", "x<=7"), ("clock-y", "y<=3")]
+    for (n1, b1) in kinds:
+        for (n2, b2) in kinds:
+            if (n1, n2) != ("time", "time"):
+                F.append(("Pr>=Pr:%s/%s" % (n1, n2), "Pr[%s] ( <> {p} ) >= Pr[%s] ( [] {q} )" % (b1, b2)))
     return F
 
 
